@@ -112,8 +112,11 @@ impl<T: Value, N: Unsigned, U: UpdateMap<T>> Vector<T, N, U> {
 impl<T: Value, N: Unsigned, U: UpdateMap<T>> TryFrom<List<T, N, U>> for Vector<T, N, U> {
     type Error = Error;
 
-    fn try_from(list: List<T, N, U>) -> Result<Self, Error> {
+    fn try_from(mut list: List<T, N, U>) -> Result<Self, Error> {
         if list.len() == N::to_usize() {
+            // A vector has no cached length: its tree must hold all `N` elements, so pending
+            // pushes have to be applied before the length is dropped.
+            list.apply_updates()?;
             let updates = list.interface.updates;
             let backing = VectorInner {
                 tree: list.interface.backing.tree,
